@@ -31,8 +31,8 @@ let lock_desc s r =
   match aget s.store r with
   | None -> "freed"
   | Some l ->
-    Printf.sprintf "%s:%s:%s:%s:%d:%d:%s:%s:%d" (sn l.l_cmd.c_lockid) (sn l.l_locked) (sn l.l_ack) (sn l.l_refc)
-      (b2i l.l_timeouted) (b2i l.l_expried) (sz l.l_eT) (sz l.l_tT) (b2i l.l_isaof)
+    Printf.sprintf "%s:%s:%s:%s:%d:%d:%s:%s:%d:%s:%s:%s:%s" (sn l.l_cmd.c_lockid) (sn l.l_locked) (sn l.l_ack) (sn l.l_refc)
+      (b2i l.l_timeouted) (b2i l.l_expried) (sz l.l_eT) (sz l.l_tT) (b2i l.l_isaof) (sn l.l_cmd.c_count) (sn l.l_cmd.c_rcount) (sn l.l_cmd.c_tflag) (sn l.l_cmd.c_req)
 
 let snapshot s =
   let c = s.cnt in
@@ -54,10 +54,10 @@ let snapshot s =
         | Some (items, _) -> Buffer.add_string b "| "; List.iter (fun r -> Buffer.add_string b (lock_desc s r ^ " ")) items));
     Buffer.add_string b "]";
     (match m.m_locks with
-     | Some q when i64_of_n q.hq_cap <> 0L -> Buffer.add_string b (Printf.sprintf " hq=%s/%s" (sn q.hq_fidx) (sn q.hq_cap))
+     | Some q when i64_of_n q.hq_cap <> 0L && not (q.hq_fast = [] && i64_of_n q.hq_fidx = 0L && i64_of_n q.hq_cap = 6L) -> Buffer.add_string b (Printf.sprintf " hq=%s/%s" (sn q.hq_fidx) (sn q.hq_cap))
      | _ -> Buffer.add_string b " hq=-");
     (match m.m_wait with
-     | Some q when i64_of_n q.wq_cap <> 0L && q.wq_mode <> WPrio -> Buffer.add_string b (Printf.sprintf " wq=%s/%s" (sn q.wq_fidx) (sn q.wq_cap))
+     | Some q when i64_of_n q.wq_cap <> 0L && q.wq_mode <> WPrio && not (q.wq_fast = [] && i64_of_n q.wq_fidx = 0L && i64_of_n q.wq_cap = 8L) -> Buffer.add_string b (Printf.sprintf " wq=%s/%s" (sn q.wq_fidx) (sn q.wq_cap))
      | _ -> Buffer.add_string b " wq=-");
     Buffer.add_string b " waiters=[";
     (match m.m_wait with None -> () | Some q -> List.iter (fun r -> Buffer.add_string b (lock_desc s r ^ " ")) (wq_items q));
